@@ -115,6 +115,9 @@ def cases(tier, seed):
     for kind in ("maj", "min", "ord"):
         for i in range(12 if tier == "quick" else 60):
             out.append({"id": "shared/%s/%d" % (kind, i), "kind": "shared", "rule": kind, "seed": [seed, 131, i], "cost": 200})
+    # waits far longer than any enumerated one (the per-member counters must carry them)
+    for i in range(4 if tier == "quick" else 40):
+        out.append({"id": "conflong/%d" % i, "kind": "confrand", "long": True, "seed": [seed, 1300, i], "cost": 3000})
     # long random sequences for larger ensembles (beyond the explored graphs)
     nr = 40 if tier == "quick" else 3000
     for i in range(nr):
@@ -329,11 +332,19 @@ def run_case(case, ctx):
         if rng.random() < 0.3:
             sens = sens - 0.5  # "voters reach sensitivity" for a sensitivity that is not a whole number
         wt = int(rng.integers(0, 7))
+        if case.get("long"):
+            n = int(rng.integers(2, 4))
+            sens = int(rng.integers(1, n + 1))
+            wt = int(rng.choice([200, 255, 256, 300, 1000]))
+            ctx.count("sequences_with_waits_of_hundreds_of_calls")
         W = wrapped_classes()
         e = W["ConfirmedElection"](sens, wt)
         rem = tuple([None] * n)
         p = rng.dirichlet([1.5, 1, 1])
         steps = 300
+        if case.get("long"):
+            p = np.array([0.97, 0.01, 0.02])  # drifts are rare events, so that waits run their full length
+            steps = 2500
         for t in range(steps):
             vec = tuple(S[j] for j in rng.choice(3, size=n, p=p))
             try:
